@@ -100,6 +100,7 @@ type Engine struct {
 	inflight   int32
 	keyHash    []uint64
 	keyConf    []uint64
+	pendingNew map[uint64]int // buffered new items per key hash (probes only)
 
 	// requests from the epilogue task to the scheduler
 	reqAdvance int64
@@ -359,6 +360,10 @@ func hookEvent(kind int, key uint64, a, b int64) {
 		probe(PrSweep)
 	case evSweepEnd:
 		e.inSweep = false
+	case evSetQueued:
+		if a == 0 && e.pendingNew != nil {
+			e.pendingNew[key]++
+		}
 	case evSetDropped:
 		if a == 0 {
 			probe(PrNewSetDropped)
@@ -370,6 +375,9 @@ func hookEvent(kind int, key uint64, a, b int64) {
 	case evClearDrained:
 		switch a {
 		case 0:
+			if e.pendingNew != nil {
+				e.pendingNew[key]--
+			}
 			probe(PrClearDrainedNew)
 		case 1:
 			probe(PrClearDrainedTomb)
@@ -391,6 +399,9 @@ func hookEvent(kind int, key uint64, a, b int64) {
 		e.c9Added(key, a == 1, int(b))
 	case evApplierDone:
 		if a == 0 {
+			if e.pendingNew != nil {
+				e.pendingNew[key]--
+			}
 			e.c9Done(key)
 		}
 	}
@@ -467,6 +478,9 @@ func (e *Engine) Run(plan *Plan, dec *core.Decider) *RunResult {
 		e.shardPark[h%256] = true
 	}
 	e.epochValid = true
+	if !core.RaceEnabled {
+		e.pendingNew = map[uint64]int{}
+	}
 
 	for i, prog := range plan.Clients {
 		cl := &client{id: i, prog: prog}
@@ -926,6 +940,9 @@ func (e *Engine) runOp(cl *client, oi int, op Op) {
 		inv := e.log(Ev{Kind: EvInvoke, Op: OpSet, Task: tk, OpIx: ix, Key: int32(op.Key), Val: int32(v.ID), A: op.Cost, B: op.TTL})
 		v.InvSeq = inv
 		wasClosed := e.closed
+		if e.pendingNew != nil && e.pendingNew[e.keyHash[op.Key]] > 0 {
+			probe(PrOverwriteWhileBuffered)
+		}
 		ok := e.api.Set(op.Key, v, op.Cost, time.Duration(op.TTL))
 		v.RetT = time.Now().UnixNano()
 		if ok {
@@ -941,6 +958,9 @@ func (e *Engine) runOp(cl *client, oi int, op Op) {
 	case OpDel:
 		e.opBegin(cl, op)
 		inv := e.log(Ev{Kind: EvInvoke, Op: OpDel, Task: tk, OpIx: ix, Key: int32(op.Key)})
+		if e.pendingNew != nil && e.pendingNew[e.keyHash[op.Key]] > 0 {
+			probe(PrDelWhileBuffered)
+		}
 		e.api.Del(op.Key)
 		e.log(Ev{Kind: EvReturn, Op: OpDel, Task: tk, OpIx: ix, Key: int32(op.Key), Ref: inv})
 		e.opEnd(cl)
